@@ -16,6 +16,10 @@ pub fn schema() -> SchemaDoc {
             TypeDef::Object { name: "Query".into(), implements: vec![], fields: vec![FieldDef::new("ok", n("Boolean"))] },
         ],
         schema_block: None,
+        // defaults do not change the generated types: a non-null member stays required
+        input_defaults: vec![("Point".into(), "x".into(), "0".into()), ("Filter".into(), "snake_case".into(), "true".into()),
+                             ("Filter".into(), "nameLike".into(), "\"abc\"".into()), ("Tree".into(), "value".into(), "1".into()),
+                             ("Filter".into(), "in".into(), "[]".into())],
     }
 }
 
